@@ -147,9 +147,19 @@ def do_load(db, arg, watch=True):
             # the usual way a database changes: the SAME path is edited and loaded again (one path per worker,
             # rewritten for every load), so a load that is skipped or cached by path shows up
             path = os.path.join(TMP or "/tmp", "verif-db-same-%d.fp" % os.getpid())
-            with open(path, "wb") as fh:
-                fh.write(raw)
-            cleanup = lambda: os.unlink(path)
+            same = False
+            try:
+                with open(path, "rb") as fh:
+                    same = fh.read() == raw
+            except OSError:
+                pass
+            if not same:
+                # an unchanged file is NOT rewritten (its mtime / size stay), so a load that is skipped or answered from a cache
+                # keyed on the file's identity is reached with a database that was touched in between
+                with open(path, "wb") as fh:
+                    fh.write(raw)
+            _SAME_PATHS.add(path)
+            cleanup = None
         else:
             fd, path = tempfile.mkstemp(prefix="verif-db-", suffix=".fp", dir=TMP)
             with os.fdopen(fd, "wb") as fh:
@@ -194,6 +204,32 @@ def do_load(db, arg, watch=True):
 
 
 _STATS = {"points": 0, "loads": 0}
+_SAME_PATHS = set()
+
+
+def _rm_same_paths():
+    for q in list(_SAME_PATHS):
+        try:
+            os.unlink(q)
+        except OSError:
+            pass
+
+
+import atexit  # noqa: E402
+atexit.register(_rm_same_paths)
+
+
+def do_add(db):
+    """the public `add()` between two loads: one more MTU record in the live database"""
+    p = P()
+    from pyp0f.database.records import MTURecord
+    from pyp0f.database.labels import MTULabel
+    from pyp0f.database.signatures import MTUSignature
+    try:
+        db.add(MTURecord(MTULabel("added by the application"), MTUSignature(1400), "1400", 0))
+    except p["E"].DatabaseError:
+        pass        # a database without an [mtu] section has no list to add to; the step is only a perturbation before the next load
+    return "added"
 
 
 def mt_line(m, res):
@@ -363,6 +399,8 @@ def hist_step(db, step, watch):
             return do_imp(db, a + [""] * 5)
         if k == "J":
             return do_impmtu_label(db, a)
+        if k == "A":
+            return do_add(db)
         return "?step"
     except impl.Hang:
         raise
